@@ -110,7 +110,12 @@ func (interp *Interpreter) gta(root *node, rpath, importPath, pkgName string) ([
 			return false
 
 		case defineXStmt:
-			if err = compDefineX(sc, n); err != nil {
+			if err2 := compDefineX(sc, n); err2 != nil {
+				// The type of the source expression may not be known yet (i.e. a
+				// call to a function declared later). Stash the error and come
+				// back when it is known.
+				n.meta = err2
+				revisit = append(revisit, n)
 				return false
 			}
 			// The variables are global: flag their symbols as such, so they are
@@ -428,7 +433,7 @@ func (interp *Interpreter) gtaRetry(nodes []*node, importPath, pkgName string) e
 			if err := definedType(n.typ); err != nil {
 				return err
 			}
-		case defineStmt, funcDecl:
+		case defineStmt, defineXStmt, funcDecl:
 			if err, ok := n.meta.(error); ok {
 				return err
 			}
